@@ -41,6 +41,9 @@ theorem runBR_bind_inv {α β : Type} {p : Prog α} {f : α → Prog β} {file :
   · cases h
   · rename_i a o hp; exact ⟨a, o, hp, h⟩
 
+@[simp] theorem ofOption_some_bind {α β : Type} (a : α) (f : α → Prog β) : Prog.bind (Prog.ofOption (some a)) f = f a := rfl
+@[simp] theorem ofOption_none_bind {α β : Type} (f : α → Prog β) : Prog.bind (Prog.ofOption (none : Option α)) f = Prog.fail := rfl
+
 theorem runBR_ofOption {α : Type} (x : Option α) (file : Bytes) (off : Nat) :
     runBR (Prog.ofOption x) file off = x.map fun a => (a, off) := by
   cases x <;> rfl
